@@ -8,6 +8,7 @@ package cryptoauth
 // transaction's auth one by one over its unsigned bytes fails for some transaction.
 
 import (
+	"bytes"
 	"context"
 	"encoding/binary"
 	"encoding/json"
@@ -63,7 +64,14 @@ const (
 	c16FaultWrongKey  = 3 // signer replaced by another honest public key
 	c16FaultAlgebraic = 4 // ed25519 s+l, secp256r1 n-s, BLS negated signature
 	c16FaultKeyBit    = 5 // flip one bit of the public key (ed25519, secp256r1)
+	// object-identity kinds: the transaction handed to the verifier is an in-memory object (not re-parsed)
+	c16FaultReusedVerified = 6 // valid auth OBJECT of another tx (same key), after a successful Verify over its own tx (as mempool admission does), attached to this tx
+	c16FaultReusedFresh    = 7 // control: freshly parsed auth object of that other tx, never verified before
+	c16PreVerified         = 8 // not a fault: this tx's own auth object was already verified once over its own bytes
+	c16PreVerifiedProbed   = 9 // not a fault: verified, then probed with a wrong message (must fail), then verified again
 )
+
+func c16InMemoryKind(k int) bool { return k >= c16FaultReusedVerified && k <= c16PreVerifiedProbed }
 
 // position selectors among the block's transactions of the targeted scheme
 const (
@@ -150,7 +158,7 @@ func c16Gen(rt *rapid.T) c16Case {
 				Scheme: rapid.IntRange(0, 6).Draw(rt, "fScheme"),
 				PosSel: rapid.IntRange(0, 6).Draw(rt, "fPosSel"),
 				PosArg: rapid.IntRange(0, 63).Draw(rt, "fPosArg"),
-				Kind:   rapid.IntRange(1, 5).Draw(rt, "fKind"),
+				Kind:   rapid.SampledFrom([]int{1, 6, 2, 3, 4, 5, 7, 8, 9}).Draw(rt, "fKind"),
 				Arg:    rapid.IntRange(0, 511).Draw(rt, "fArg"),
 			})
 		}
@@ -308,6 +316,9 @@ func c16Faulted(s c16TxSpec) (chain.Auth, bool, error) {
 // c16BuildTx produces the transaction exactly as a verifier sees it: signed bytes parsed by
 // chain.UnmarshalTx with the registered auth parsers.
 func c16BuildTx(s c16TxSpec) (*chain.Transaction, bool, error) {
+	if c16InMemoryKind(s.Fault) {
+		return c16BuildInMemoryTx(s)
+	}
 	a, applied, err := c16Faulted(s)
 	if err != nil {
 		return nil, false, err
@@ -330,6 +341,69 @@ func c16BuildTx(s c16TxSpec) (*chain.Transaction, bool, error) {
 		return nil, false, fmt.Errorf("tx id changed by parsing")
 	}
 	return parsed, applied, nil
+}
+
+// errC16Verdict marks an error that is a verdict about auth.Verify itself (not a fixture problem).
+var errC16Verdict = errors.New("auth.Verify verdict depends on the object's history")
+
+// c16ParsedHonestTx returns a freshly parsed (never verified) honest transaction for (scheme,key,msg).
+func c16ParsedHonestTx(scheme, key, msg int) (*chain.Transaction, error) {
+	var a chain.Auth
+	if scheme == schemeStub {
+		a = &stubAuth{Addr: stubAddr(key)}
+	} else {
+		va, err := c16ValidAuth(scheme, key, msg)
+		if err != nil {
+			return nil, err
+		}
+		a = va
+	}
+	td := c16TxData(msg)
+	tx, err := chain.NewTransaction(td.Base, td.Actions, a) // only to obtain the signed bytes
+	if err != nil {
+		return nil, err
+	}
+	return chain.UnmarshalTx(tx.Bytes(), parser())
+}
+
+// c16BuildInMemoryTx builds the transactions whose auth OBJECT has a history (kinds 6..9). They
+// are handed to the verifier as in-memory objects, as a node does with transactions that went
+// through admission (VerifyAuth) and then into a block it built itself.
+func c16BuildInMemoryTx(s c16TxSpec) (*chain.Transaction, bool, error) {
+	ctx := context.Background()
+	td := c16TxData(s.Msg)
+	switch s.Fault {
+	case c16FaultReusedVerified, c16FaultReusedFresh:
+		other, err := c16ParsedHonestTx(s.Scheme, s.Key, s.Msg+100000)
+		if err != nil {
+			return nil, false, err
+		}
+		if s.Fault == c16FaultReusedVerified {
+			if err := other.VerifyAuth(ctx); err != nil {
+				return nil, false, fmt.Errorf("%w: honest %s tx does not verify: %v", errC16Verdict, schemeNames[s.Scheme], err)
+			}
+		}
+		tx, err := chain.NewTransaction(td.Base, td.Actions, other.Auth) // the other tx's auth object on this tx's bytes
+		return tx, true, err
+	default:
+		own, err := c16ParsedHonestTx(s.Scheme, s.Key, s.Msg)
+		if err != nil {
+			return nil, false, err
+		}
+		if err := own.VerifyAuth(ctx); err != nil {
+			return nil, false, fmt.Errorf("%w: honest %s tx does not verify: %v", errC16Verdict, schemeNames[s.Scheme], err)
+		}
+		if s.Fault == c16PreVerifiedProbed && s.Scheme != schemeStub {
+			wrong := c16TxData(s.Msg + 100000)
+			if err := own.Auth.Verify(ctx, wrong.UnsignedBytes()); err == nil {
+				return nil, false, fmt.Errorf("%w: %s auth object that verified over its own tx also verifies over another tx's unsigned bytes", errC16Verdict, schemeNames[s.Scheme])
+			}
+		}
+		if err := own.VerifyAuth(ctx); err != nil { // idempotence: a second Verify over the right message still passes
+			return nil, false, fmt.Errorf("%w: second Verify of a valid %s auth object over the same message fails: %v", errC16Verdict, schemeNames[s.Scheme], err)
+		}
+		return own, true, nil
+	}
 }
 
 // c16Expand interprets one generated block as a list of transaction specs.
@@ -652,7 +726,7 @@ func c16NewChain(pool workers.Workers, engines chain.AuthEngines) (*c16Chain, er
 
 // c16Exec wraps the transactions in a block on top of a funded parent state, sends it through
 // marshal/parse and executes it with the real processor.
-func (cc *c16Chain) exec(pool *c16Workers, txs []*chain.Transaction) (error, error) {
+func (cc *c16Chain) exec(pool *c16Workers, txs []*chain.Transaction, inMemory bool) (error, error) {
 	ctx := context.Background()
 	db, err := merkledb.New(ctx, memdb.New(), merkledb.Config{BranchFactor: merkledb.BranchFactor16, Tracer: trace.Noop})
 	if err != nil {
@@ -684,11 +758,14 @@ func (cc *c16Chain) exec(pool *c16Workers, txs []*chain.Transaction) (error, err
 	if err != nil {
 		return nil, err
 	}
-	parsed, err := chain.UnmarshalBlock(sb.GetBytes(), cc.parser_)
-	if err != nil {
-		return nil, fmt.Errorf("block does not parse: %w", err)
+	eb := chain.NewExecutionBlock(sb) // a block the node built itself from admitted transactions
+	if !inMemory {
+		parsed, err := chain.UnmarshalBlock(sb.GetBytes(), cc.parser_)
+		if err != nil {
+			return nil, fmt.Errorf("block does not parse: %w", err)
+		}
+		eb = chain.NewExecutionBlock(parsed)
 	}
-	eb := chain.NewExecutionBlock(parsed)
 	res := make(chan error, 1)
 	go func() {
 		_, err := cc.proc.Execute(ctx, db, eb, false)
@@ -701,7 +778,7 @@ func (cc *c16Chain) exec(pool *c16Workers, txs []*chain.Transaction) (error, err
 
 func c16Run(c c16Case, st *vstat.Stats) error {
 	st.Assumption("keys are honestly generated (deterministic seeds through each scheme's own key derivation); secp256r1 signing is randomised, so replays re-sign (verdicts do not depend on the nonce)")
-	st.Assumption("faulted transactions are only those whose signed bytes still parse (UnmarshalTx), as in a block received from the network")
+	st.Assumption("faulted transactions are only those whose signed bytes still parse (UnmarshalTx), as in a block received from the network; transactions whose auth object has a history (verified before / taken from another tx) are passed as in-memory objects, as in a block the node built from admitted transactions")
 	var base workers.Workers
 	if c.Workers <= 0 {
 		base = workers.NewSerial()
@@ -767,10 +844,31 @@ func c16Run(c c16Case, st *vstat.Stats) error {
 		specs := c16Expand(c, bi, st)
 		txs := make([]*chain.Transaction, len(specs))
 		schemes := map[int]int{}
+		inMemory := false // some tx of the block is an in-memory object with a history: the block is not re-parsed
 		for i, s := range specs {
 			tx, applied, err := c16BuildTx(s)
 			if err != nil {
+				if errors.Is(err, errC16Verdict) {
+					return fmt.Errorf("tx %d %+v: %w", i, s, err)
+				}
 				return fmt.Errorf("fixture: build tx %+v: %w", s, err)
+			}
+			if c16InMemoryKind(s.Fault) {
+				inMemory = true
+				switch {
+				case s.Scheme == schemeStub:
+					labels["stub-auth-object-shared"] = true
+				case s.Fault == c16FaultReusedVerified:
+					labels["auth-object-reused-after-verify"] = true
+					labels["auth-object-reused-after-verify:"+schemeNames[s.Scheme]] = true
+					nontrivial = true
+				case s.Fault == c16FaultReusedFresh:
+					labels["auth-object-reused-fresh-control"] = true
+				case s.Fault == c16PreVerified:
+					labels["valid-auth-object-preverified"] = true
+				default:
+					labels["valid-auth-object-preverified-probed-wrong-msg"] = true
+				}
 			}
 			if !applied {
 				st.Skip("fault-not-encodable")
@@ -791,7 +889,15 @@ func c16Run(c c16Case, st *vstat.Stats) error {
 			verr, ok := c16OracleMem[id]
 			c16Mu.Unlock()
 			if !ok {
-				verr = tx.Auth.Verify(context.Background(), tx.UnsignedBytes())
+				// the oracle never touches an object the system under test sees: fresh copy from the signed bytes
+				fresh, perr := chain.UnmarshalTx(tx.Bytes(), parser())
+				if perr != nil {
+					return fmt.Errorf("fixture: tx %d does not re-parse: %w", i, perr)
+				}
+				if fresh.GetID() != id || !bytes.Equal(fresh.UnsignedBytes(), tx.UnsignedBytes()) {
+					return fmt.Errorf("fixture: tx %d: re-parsed copy differs", i)
+				}
+				verr = fresh.Auth.Verify(context.Background(), fresh.UnsignedBytes())
 				c16Mu.Lock()
 				c16OracleMem[id] = verr
 				c16Mu.Unlock()
@@ -820,7 +926,7 @@ func c16Run(c c16Case, st *vstat.Stats) error {
 					labels["invalid-"+schemeNames[specs[i].Scheme]] = true
 				}
 				labels[fmt.Sprintf("fault-kind=%d", specs[i].Fault)] = true
-			} else if specs[i].Fault != c16FaultNone && specs[i].Scheme != schemeStub {
+			} else if specs[i].Fault != c16FaultNone && specs[i].Fault < c16PreVerified && specs[i].Scheme != schemeStub {
 				labels["fault-that-still-verifies"] = true
 			}
 			if specs[i].Scheme == schemeEd {
@@ -859,7 +965,10 @@ func c16Run(c c16Case, st *vstat.Stats) error {
 		// ---- implementation
 		var got, infra error
 		if c.Exec {
-			got, infra = cc.exec(pool, txs)
+			got, infra = cc.exec(pool, txs, inMemory)
+			if inMemory {
+				labels["via=Processor.Execute,in-memory-block"] = true
+			}
 		} else {
 			got, infra = c16Direct(pool, engines, txs, c.WaitEarly, c.Gate)
 		}
@@ -913,7 +1022,7 @@ func c16Run(c c16Case, st *vstat.Stats) error {
 	return firstErr
 }
 
-const c16Rule = "1-3 blocks verified on one pool (serial or 1..16 parallel workers; engines map with/without the ed25519 batch engine; through Processor.Execute or NewAuthBatch+Job as verifySignatures/waitSignatures do, Wait called before or after the Done callback, optionally with the batch tasks held back until Wait is entered); each block mixes 0-40 ed25519, 0-6 secp256r1, 0-4 BLS and 0-6 stub auths (ed25519 counts biased to k*batchSize-1/+0/+1), 0-3 faults (bit flip, signature of another message, wrong key, s+l / n-s / negated, key bit) at first/last/batch-boundary/last-partial-batch positions; oracle = auth.Verify one by one; non-trivial = batch engine on and an invalid ed25519 signature in the final partial batch or at a batch boundary; distinct by the whole case"
+const c16Rule = "1-3 blocks verified on one pool (serial or 1..16 parallel workers; engines map with/without the ed25519 batch engine; through Processor.Execute or NewAuthBatch+Job as verifySignatures/waitSignatures do, Wait called before or after the Done callback, optionally with the batch tasks held back until Wait is entered); each block mixes 0-40 ed25519, 0-6 secp256r1, 0-4 BLS and 0-6 stub auths (ed25519 counts biased to k*batchSize-1/+0/+1), 0-3 faults (bit flip, signature of another message, wrong key, s+l / n-s / negated, key bit, the valid auth OBJECT of another tx reused in memory after / without a successful Verify over its own tx, and as non-faults a tx whose own object was verified before, optionally probed with a wrong message) at first/last/batch-boundary/last-partial-batch positions; oracle = auth.Verify one by one on freshly parsed copies never shared with the verifier; non-trivial = (batch engine on and an invalid ed25519 signature in the final partial batch or at a batch boundary) or an auth object reused after a successful verify; distinct by the whole case"
 
 func TestC16(t *testing.T) {
 	st := vstat.New(t, "C16", c16Rule)
@@ -940,7 +1049,7 @@ func TestC16Replay(t *testing.T) {
 // ran" = fixes/F20-serial-job-wait.diff and "verification worker must keep serving tasks after a
 // job error" = fixes/F5-workers-continue.diff) plus a few hand-picked boundary blocks.
 func TestC16Regression(t *testing.T) {
-	st := vstat.New(t, "C16", "regression: hand-written minimal cases (serial pool + ed25519 batch engine with an invalid signature in the only / final batch, Wait entered before the batch tasks ran, directly and through Processor.Execute; 1-worker pool with a failing first signature followed by further tasks and a second block; ed25519 counts exactly k*batchSize with the invalid signature first/last)")
+	st := vstat.New(t, "C16", "regression: hand-written minimal cases (serial pool + ed25519 batch engine with an invalid signature in the only / final batch, Wait entered before the batch tasks ran, directly and through Processor.Execute; 1-worker pool with a failing first signature followed by further tasks and a second block; ed25519 counts exactly k*batchSize with the invalid signature first/last; the verified auth object of another tx reused on this tx for secp256r1 / ed25519 / BLS)")
 	slots := func(n int) []c16Slot { return make([]c16Slot, n) }
 	flt := func(scheme, pos, kind int) c16Fault { return c16Fault{Scheme: scheme, PosSel: pos, Kind: kind, Arg: 107} }
 	cases := []c16Case{
@@ -961,6 +1070,12 @@ func TestC16Regression(t *testing.T) {
 		{Workers: 4, BatchEngine: true, WaitEarly: true, Blocks: []c16Block{{Counts: [4]int{16, 0, 0, 0}, Slots: slots(16), Faults: []c16Fault{flt(0, c16PosStartSecond, c16FaultBitFlip)}}}},
 		{Workers: 4, BatchEngine: true, Blocks: []c16Block{{Counts: [4]int{17, 0, 0, 0}, Slots: slots(17), Faults: []c16Fault{flt(0, c16PosFirstOfPartial, c16FaultKeyBit)}}}},
 		{Workers: 16, BatchEngine: true, Exec: true, Blocks: []c16Block{{Counts: [4]int{40, 3, 2, 3}, Slots: slots(48)}}},
+		// auth object of another tx, already verified over its own bytes, reused on this tx (per scheme; direct and through Execute on an in-memory block)
+		{Workers: 2, BatchEngine: true, Blocks: []c16Block{{Counts: [4]int{0, 3, 0, 0}, Slots: slots(3), Faults: []c16Fault{flt(4, c16PosLast, c16FaultReusedVerified)}}}},
+		{Workers: 1, BatchEngine: false, Exec: true, Blocks: []c16Block{{Counts: [4]int{0, 2, 0, 0}, Slots: slots(2), Faults: []c16Fault{flt(4, c16PosFirst, c16FaultReusedVerified)}}}},
+		{Workers: 0, BatchEngine: true, Exec: true, Blocks: []c16Block{{Counts: [4]int{5, 0, 0, 0}, Slots: slots(5), Faults: []c16Fault{flt(0, c16PosLast, c16FaultReusedVerified)}}}},
+		{Workers: 4, BatchEngine: false, Blocks: []c16Block{{Counts: [4]int{0, 0, 2, 0}, Slots: slots(2), Faults: []c16Fault{flt(4, c16PosFirst, c16FaultReusedVerified)}}}},
+		{Workers: 3, BatchEngine: true, Exec: true, Blocks: []c16Block{{Counts: [4]int{4, 2, 1, 1}, Slots: slots(8), Faults: []c16Fault{flt(4, c16PosAny, c16PreVerifiedProbed), flt(5, c16PosAny, c16PreVerified), flt(6, c16PosAny, c16FaultReusedFresh)}}}},
 	}
 	for i := range cases {
 		c := cases[i]
